@@ -913,37 +913,48 @@ def validate(ctx, records, bin_size=120):
 GATES = ["gzip_mtime", "ns_time", "model_abspath", "assert_abspath", "model_cache", "pp_carry", "include_order", "html_order", "filter_owner"]
 
 
-def _retry(f, *a, **kw):
-    """TLC killed from outside (no verdict, no error text: e.g. the OOM killer of a shared machine) is retried; a verdict never is."""
-    for attempt in range(3):
-        try:
-            return f(*a, **kw)
-        except MachineryFailure as e:
-            if attempt == 2 or ": None None" not in str(e).split("\n")[0]:
-                raise
+def _tlc(ctx, cfg, workers):
+    """One TLC run of GenRepro.tla.  A JVM killed from outside (no verdict and no error text: e.g. the OOM killer of a shared
+    machine) is retried; a verdict never is."""
+    for _attempt in range(3):
+        res = tlc.run_tlc(SPECS / "GenRepro.tla", SPECS / (cfg + ".cfg"), ctx.scratch, workers=workers, timeout=5400, xmx="4g")
+        if res.ok or res.error is not None or res.violated is not None:
+            break
+    return res
 
 
 def run_models(ctx):
     q = ctx.quick
     mt = 3 if q else 4
+    sfx = "" if q else "4"
     base = "MaxTypes=%d MaxNested=3 Langs={c,cpp,py,html}" % mt
-    _retry(tlc.check_model, ctx, "GenRepro", "GenRepro" if q else "GenRepro_4", timeout=5400, xmx="4g",
-                    constants=base + " Audits=%s all gates closed, unsorted walk, run 2 varies clock x loc x cwd" % ("{F}" if q else "{F,T}"))
-    _retry(tlc.check_model, ctx, "GenRepro", "GenRepro_sorted" if q else "GenRepro_sorted4", timeout=3000, xmx="4g",
-                    constants=base + " gates model_cache+pp_carry OPEN but SortedWalk=TRUE (the alternative repair)")
-    neg = tlc.run_tlc(SPECS / "GenRepro.tla", SPECS / "GenRepro_neg.cfg", ctx.scratch, xmx="4g")
+    plan = collections.OrderedDict([
+        ("design", ("GenRepro" if q else "GenRepro_4", NCPU,
+                    base + " Audits=%s all gates closed, unsorted walk, run 2 varies clock x loc x cwd" % ("{F}" if q else "{F,T}"))),
+        ("sorted", ("GenRepro_sorted" + sfx, 2, base + " gates model_cache+pp_carry OPEN but SortedWalk=TRUE (the alternative repair)")),
+        ("neg", ("GenRepro_neg", 1, "")),
+        ("audit", ("GenRepro_audit", 1, "")),
+        ("wit_amb", ("GenRepro_wit_amb", 1, "one ambient gate open at a time, MaxTypes=2 MaxNested=1")),
+        ("wit_order", ("GenRepro_wit_order" + sfx, 1, "one order-borne gate open at a time, MaxTypes=%d, same clock/loc/cwd in both runs" % mt)),
+        ("orders", ("GenRepro_orders" + sfx, 1, "possible creation orders per shape (c: no namespace files, py: with), MaxTypes=%d" % mt)),
+    ])
+    with concurrent.futures.ThreadPoolExecutor(max_workers=len(plan)) as ex:
+        results = dict(zip(plan, ex.map(lambda k: _tlc(ctx, plan[k][0], plan[k][1]), plan)))
+    for k in ("design", "sorted", "wit_amb", "wit_order", "orders"):
+        res = results[k]
+        if not res.ok:
+            raise MachineryFailure("model GenRepro/%s did not pass: %s %s\n%s" % (plan[k][0], res.error, res.violated, res.out[-3000:]))
+        res.constants = plan[k][2]
+        ctx.add_model(res, plan[k][0] + ".cfg")
+    neg, neg2 = results["neg"], results["audit"]
     if neg.violated != "Refines":
         raise MachineryFailure("negative control: the design with an open gate was not refuted (%s / %s)" % (neg.error, neg.violated))
-    neg2 = tlc.run_tlc(SPECS / "GenRepro.tla", SPECS / "GenRepro_audit.cfg", ctx.scratch, xmx="4g")
     if neg2.violated != "SameEvenWithAudit":
         raise MachineryFailure("negative control: auditing information did not make the two results differ in the model (%s / %s)" % (neg2.error, neg2.violated))
     ctx.cov["model_negative_control"] = ["gate model_cache open, unsorted walk: invariant Refines refuted after %d states" % neg.distinct,
                                          "embed_auditing_info: results differ (SameEvenWithAudit refuted after %d states) while Refines holds" % neg2.distinct]
-    wit = _retry(tlc.emit_cases, ctx, "GenRepro", "GenRepro_wit_amb", xmx="4g", constants="one ambient gate open at a time, MaxTypes=2 MaxNested=1", timeout=3000)
-    wit += _retry(tlc.emit_cases, ctx, "GenRepro", "GenRepro_wit_order" if q else "GenRepro_wit_order4", timeout=5400, xmx="4g",
-                          constants="one order-borne gate open at a time, MaxTypes=%d, same clock/loc/cwd in both runs" % mt)
-    orders = _retry(tlc.emit_cases, ctx, "GenRepro", "GenRepro_orders" if q else "GenRepro_orders4", timeout=3000, xmx="4g",
-                            constants="possible creation orders per shape (c: no namespace files, py: with), MaxTypes=%d" % mt)
+    wit = results["wit_amb"].json_lines() + results["wit_order"].json_lines()
+    orders = results["orders"].json_lines()
     by_gate = collections.Counter(g for w in wit for g in w["gates"])
     missing = [g for g in GATES if not by_gate[g]]
     if missing:
@@ -1234,7 +1245,8 @@ def run(ctx):
     ctx.cov["runs"] = {"total": len(camp.records), "by_process": dict(collections.Counter(camp.meta[r][2]["proc"] for r in camp.meta)),
                        "by_target": dict(collections.Counter(camp.meta[r][1].lang for r in camp.meta)),
                        "by_front": dict(collections.Counter(camp.meta[r][1].front for r in camp.meta)),
-                       "input_sets": len(camp.inputs), "option_sets": len(camp.opts)}
+                       "input_sets": len(camp.inputs), "option_sets": len(camp.opts),
+                       "with_recorded_creation_order": sum(1 for r in camp.records if r["order"])}
     some = [r for r in camp.records if camp.meta[r["id"]][3] is not None][:2]
     for r in some:
         inp, o, amb, ref_rid, _e = camp.meta[r["id"]]
